@@ -15,6 +15,9 @@ SPEC = {
         {"name": "duplex-race", "pkg": O4, "kind": "rapid", "run": "^TestVerifC05Duplex$",
          "quick": {"checks": 20, "shards": 1, "timeout": 300, "race": True},
          "thorough": {"checks": 150, "shards": 6, "timeout": 3000, "race": True}},
+        {"name": "long-session", "pkg": O4, "kind": "rapid", "run": "^TestVerifC05LongSession$",
+         "quick": {"checks": 40, "shards": 4, "timeout": 300},
+         "thorough": {"checks": 300, "shards": 8, "timeout": 3000}},
         {"name": "bit-enum", "pkg": O4, "kind": "plain", "run": "^TestVerifC05BitEnum$",
          "quick": {"shards": 4, "timeout": 300}, "thorough": {"shards": 16, "timeout": 3000}},
         {"name": "fuzz", "pkg": O4, "kind": "fuzz", "fuzz": "FuzzVerifC05TamperedStream",
